@@ -292,7 +292,7 @@ def prepare_loop(sl):
         def prepare_file_offset_table(path):
             log.append(("offset-table", path, fs.files.get(path)))
             k = _lazy_kind("offset_table_outcome", 3)
-            n = None if k == 0 else (lines_declared if k == 1 else fresh_int("lines_read", 1))
+            n = None if k == 0 else (lines_declared if k == 1 else fresh_int("lines_read", 0))  # an empty file has 0 lines
             log.append(("lines", n))
             return n
 
